@@ -41,7 +41,7 @@ def run_real(shape, direction, s, n_steps, initialize=None):
 
 
 def run():
-    chk = Check("C16")
+    chk = Check("C16", props_modules=["GFO.Props.C16", "GFO.Props.GridRuns"])
     chk.build_and_audit()
     r = C.rng("C16")
     quick = C.tier() != "thorough"
@@ -90,4 +90,6 @@ def run():
         chk.monitor("C16 statement on the real runs: the first |S| iteration steps are pairwise distinct and in the box", n, fails)
     chk.exhaustive = True
     chk.assumptions.append("orthogonal int(x / |S|) is float division: exact below 2^53; numpy int64 products do not overflow below 10^18")
+    from . import localgen
+    localgen.add_grid_to(chk, C.rng("C16-grid"), 60 if C.tier() != "thorough" else 600, constraint_p=0.3)
     return chk.finish()
